@@ -210,6 +210,8 @@ type Instance struct {
 
 var instSeq atomic.Int64
 
+var startMu sync.Mutex
+
 func discardLogger(w io.Writer) *slog.Logger {
 	if w != nil {
 		return slog.New(slog.NewTextHandler(w, &slog.HandlerOptions{Level: slog.LevelDebug}))
@@ -272,7 +274,11 @@ func Start(o Options) (*Instance, error) {
 	ao.Logger = discardLogger(o.Debug)
 	ao.Registerer = in.Reg
 	ao.Flagger = featurecontrol.NoopFlags{}
+	// app.New is serialised: concurrent construction of several instances in one process races inside
+	// go-openapi on the cached swagger document (outside every property; it would only add race-detector noise)
+	startMu.Lock()
 	a, err := app.New(ao)
+	startMu.Unlock()
 	app.VerifSetHooks(in.dataDir, nil)
 	if err != nil {
 		return nil, err
